@@ -118,6 +118,15 @@ func cmdCheck(argv []string) int {
 		}()
 	}
 	wg.Wait()
+	var extraReps []*OblReport
+	if *prop == "C07" && *only == "" {
+		sr, err := solGuard(l, *prop)
+		if err != nil {
+			fmt.Fprintln(os.Stderr, "ENGINE ERROR: solidity guard:", err)
+			return 2
+		}
+		extraReps = sr
+	}
 	known := loadKnown()
 	shortFor := map[string]bool{}
 	for _, kf := range known.Findings {
@@ -145,6 +154,7 @@ func cmdCheck(argv []string) int {
 	}
 	tExec := time.Since(start).Seconds()
 	reps := discharge(results, timeout, shortFor)
+	reps = append(reps, extraReps...)
 	tSolve := time.Since(start).Seconds() - tExec
 	defer func() { fmt.Fprintf(os.Stderr, "timing: load+exec %.1fs, discharge %.1fs\n", tExec, tSolve) }()
 
